@@ -191,6 +191,8 @@ class Effects:
             if isinstance(fn, ast.Name):
                 if fn.id in self.prog.classes:
                     return 'fresh'
+                if fn.id == 'chain':
+                    return self._join({self.root_of(a, f, at, depth + 1) for a in e.args} | {'fresh'})
                 if fn.id in FRESH_CALLS:
                     if fn.id in ('list', 'sorted', 'reversed', 'tuple', 'set', 'next', 'iter', 'max', 'min', 'enumerate'):
                         return self._join({self.root_of(a, f, at, depth + 1) for a in e.args} | {'fresh'})
@@ -201,6 +203,11 @@ class Effects:
                 return 'unknown'
             if isinstance(fn, ast.Attribute):
                 name = unmangle(fn.attr)
+                # element-preserving library calls: itertools.chain(A, B), dict.fromkeys(P)
+                if name in ('chain', 'from_iterable') and isinstance(fn.value, (ast.Name, ast.Attribute)) and \
+                        'chain' in (name, getattr(fn.value, 'attr', ''), getattr(fn.value, 'id', '')) or \
+                        (name == 'fromkeys' and isinstance(fn.value, ast.Name) and fn.value.id in ('dict', 'OrderedDict')):
+                    return self._join({self.root_of(a, f, at, depth + 1) for a in e.args[:None if name != 'fromkeys' else 1]} | {'fresh'})
                 if name in ('copy', 'keys', 'values', 'items', 'get', 'setdefault', 'pop', 'intersection', 'union',
                             '__add__', '__getitem__', '__getattribute__'):
                     rt = base(self.typer.expr_type(fn.value, f))
